@@ -367,9 +367,11 @@ def stringify_master_schema_versions(version_history):
             for (
                 md5_hash_identifier,
                 master_schema_entry,
-            ) in master_schema_entries.items():
+            ) in list(master_schema_entries.items()):
 
                 if md5_hash_identifier not in modified_master_schema_entries:
+
+                    del master_schema_entries[md5_hash_identifier]
 
                     removed_string = (
                         "Version: {} Removed Master Schema Entry: Root Page Number: {} Type: {} "
